@@ -128,7 +128,8 @@ type opResult struct {
 	slip  int    // ms by which the op began later than its place in the history (the machine was busy)
 }
 
-// stableHistory runs a timed history and, when the run was DISTURBED — some op began more than 250 ms late, so the gaps
+// stableHistory runs a timed history and, when the run was DISTURBED — some op began later than the history tolerates
+// (slipTolerance: half its smallest gap, at most 250 ms), so the gaps
 // the history is about were not the gaps that were run — and its outcome is not the expected one, runs it again (up to
 // three runs, with a pause): a history's verdict is about its own timing, not about the load on the machine.  An
 // undisturbed run is final whatever it shows.
@@ -140,18 +141,51 @@ func stableHistory(h *history, run func(*history) ([]opResult, error)) ([]opResu
 		if err != nil {
 			return res, err
 		}
-		disturbed := false
-		for _, r := range res {
-			if r.slip > 250 {
-				disturbed = true
-			}
-		}
-		if !disturbed || brokerPredicate(h, res) == "ok" {
+		if !disturbedRun(h, res) || brokerPredicate(h, res) == "ok" {
 			return res, nil
 		}
 		time.Sleep(time.Duration(2+attempt*3) * time.Second)
 	}
 	return res, err
+}
+
+// slipTolerance: by how much an op may begin late before the run no longer is the history: half the smallest gap between
+// two ops of the history that are meant to happen one after the other (a 60 ms gap is turned round by a 70 ms slip), at
+// most 250 ms.
+func slipTolerance(h *history) int {
+	tol := 250
+	for i := range h.ops {
+		for j := range h.ops {
+			if g := h.ops[j].at - h.ops[i].at; g > 0 && g/2 < tol {
+				tol = g / 2
+			}
+		}
+	}
+	if tol < 10 {
+		tol = 10
+	}
+	return tol
+}
+
+func disturbedRun(h *history, res []opResult) bool {
+	tol := slipTolerance(h)
+	for _, r := range res {
+		if r.slip > tol {
+			return true
+		}
+	}
+	return false
+}
+
+// settleDisturbed: after a batch of histories that ran side by side, the ones whose last run was still disturbed AND
+// unexpected are run once more ONE AT A TIME (the batch itself is most of the load they suffered from).
+func settleDisturbed(hs []*history, results [][]opResult, errs []error, run func(*history) ([]opResult, error)) {
+	for i, h := range hs {
+		if errs[i] != nil || results[i] == nil || !disturbedRun(h, results[i]) || brokerPredicate(h, results[i]) == "ok" {
+			continue
+		}
+		results[i], errs[i] = stableHistory(h, run)
+	}
 }
 
 // runHistory executes the history against a fresh real broker pair.
@@ -445,7 +479,19 @@ func brokerPredicate(h *history, res []opResult) string {
 		switch o.role {
 		case "matched", "latebulk":
 			if r.res != "ok" {
-				return fmt.Sprintf("FAIL:matched-%c-%s", o.kind, r.res)
+				// two dials of one id issued within a fraction of a second of each other: WHICH of them meets the accept is
+				// not part of the history (their streams may arrive in either order); exactly one connects
+				swapped := false
+				if o.kind == 'd' && r.res == "err" {
+					for j, o2 := range h.ops {
+						if j != i && o2.kind == 'd' && o2.id == o.id && o2.dir == o.dir && o2.at-o.at <= 200 && o.at-o2.at <= 200 && res[j].res == "ok" && res[j].cross == "" {
+							swapped = true
+						}
+					}
+				}
+				if !swapped {
+					return fmt.Sprintf("FAIL:matched-%c-%s", o.kind, r.res)
+				}
 			}
 		case "unmatched":
 			if r.res == "hang" {
@@ -548,7 +594,8 @@ func runBrokerScenario(o *out, tag, replay string, gen func(r *rng) (plain, hook
 	run := func(hs []*history) {
 		results := make([][]opResult, len(hs))
 		errs := make([]error, len(hs))
-		parallel(len(hs), len(hs), func(i int) { results[i], errs[i] = stableHistory(hs[i], runHistory) })
+		parallel(len(hs), 64, func(i int) { results[i], errs[i] = stableHistory(hs[i], runHistory) }) // (64 at a time: hundreds of histories side by side delay each other's ops by more than their gaps)
+		settleDisturbed(hs, results, errs, runHistory)
 		for i, h := range hs {
 			emitHistory(o, tag, h, results[i], errs[i])
 		}
@@ -581,6 +628,7 @@ func runBrokerScenario(o *out, tag, replay string, gen func(r *rng) (plain, hook
 		gres := make([][]opResult, len(ghs))
 		gerrs := make([]error, len(ghs))
 		parallel(len(ghs), len(ghs), func(i int) { gres[i], gerrs[i] = stableHistory(ghs[i], runGrpcHistory) })
+		settleDisturbed(ghs, gres, gerrs, runGrpcHistory)
 		for i, h := range ghs {
 			emitGrpcHistory(o, h, gres[i], gerrs[i])
 		}
